@@ -168,8 +168,8 @@ func (p *parser) parseBinaryExpr(left Node) Node {
 	if expType == EMPTY_ARRAY && binaryExp.Right.Type().Name == ARRAY {
 		binaryExp.T = binaryExp.Right.Type() // array concatenation e.g. [] + [1 2]
 	}
-	if !isComparisonOp(tok.Type) && binaryExp.Right.Type().Fixed {
-		binaryExp.T = fixedType(binaryExp.T) // [1] + x with a variable x is not a constant
+	if !isComparisonOp(tok.Type) && containsFixed(binaryExp.Right.Type()) {
+		binaryExp.T = fixedType(binaryExp.T) // [1] + x and [[1]] + [x] with a variable x are not constants
 	}
 	errCount := len(p.errors)
 	p.validateBinaryType(binaryExp)
